@@ -145,6 +145,10 @@ def AliveNode (s : State) (n : Nat) : Prop :=
 
 def AliveInv (s : State) : Prop := ∀ n, AliveNode s n
 
+/-- decidable form of `AliveInv` (`aliveInv_of_check`), evaluated by the driver each time loading ends -/
+def aliveOk (s : State) : Bool :=
+  s.metas.all fun p => p.1.r == Role.fork || !p.2.disk.jobinfo || p.2.disk.complete || s.alive.contains p.1
+
 /-- the pipestance is complete (`Pipestance.GetState() == Complete` and nothing
 left to do): every node finished, every cached node state current -/
 def Finished (s : State) : Prop :=
